@@ -335,3 +335,78 @@ claim('C18',
       'buffer-bound pattern check, exception-escape analysis over inlined '
       'CFG, handler reachability',
       'DESIGN.md §4 C18')
+
+
+def extend(pid, text, technique=None):
+    CLAIMED[pid]['text'] += ' ' + text
+    if technique:
+        CLAIMED[pid]['technique'] += '; ' + technique
+
+
+# rules added after the seeded rounds (DESIGN.md §10)
+extend('C01', 'Also decided: both failure lists are examined after the '
+       'classification loop; per-recipient result mappings are total; no '
+       'builtin used by slimta.queue is shadowed by a submodule; the '
+       'pool-order graph of the queue (slot holder waits for a slot) is '
+       'acyclic; relay clients record acceptance only under acceptance '
+       'facts.', 'lock-order style cycle detection over pool acquisitions')
+extend('C02', 'Also decided: the list the policy chain returns is what is '
+       'written and paired with the ids, and is never updated at an index '
+       'enumerated from a snapshot of itself.')
+extend('C03', 'Also decided: settled positions are looked up in '
+       'envelope.recipients (value provenance), and the in-flight mark is '
+       'released only after the removal was started or the next due time '
+       'persisted.', 'def-use provenance, must-event dataflow')
+extend('C04', 'Also decided: no explicitly raised exception below the '
+       'per-id read escapes the scan loop; the file helpers reach the disk '
+       'on every path; only DiskStorage.remove deletes files.',
+       'exception-escape search over the inlined CFG')
+extend('C05', 'Also decided: the reader\'s line pattern (regular-expression '
+       'syntax tree) ends a line at every LF and only there, and every '
+       'line-boundary literal and offset of the sender\'s stuffing agrees '
+       'with it; every completed line is examined exactly once; cursor, '
+       'line table and EOD are written by their owner methods only.',
+       'regex syntax-tree analysis (re._parser), per-iteration event counts, '
+       'who-may-write')
+extend('C07', 'Also decided: STARTTLS is a reset point; an accepted MAIL '
+       'installs a fresh Envelope on every 250 path; the edge changes the '
+       'envelope only after the validator ran.')
+extend('C08', 'Also decided: the authenticated flag is never cleared; the '
+       'edge records the identity only after the validator ran.')
+extend('C09', 'Also decided: Server.handle has no way out with unflushed '
+       'replies; no raise of the IO receive path is conditioned on the '
+       'amount buffered.', 'dirty/clean typestate over exception edges')
+extend('C10', 'Also decided: Reply.recv reads exactly one reply; '
+       'recv_reply consumes only whole lines.', 'event counting')
+extend('C11', 'Also decided: the request is resolved before any further '
+       'protocol step once the verdicts are in; resolver codes treated as '
+       '"no such record" are authoritative negatives only; per-recipient '
+       'result mappings are total.')
+extend('C12', 'Also decided: the due predicate of _check_ready (scan or '
+       'bisection cut, by tuple ordering) complements the sleep predicate of '
+       '_wait_ready; the scan over the shared timetable is yield-free; every '
+       'continuation of the marks call re-queues; the pool-order graph is '
+       'acyclic and _pool_spawn never waits on behalf of a slot holder.',
+       'lock-order style cycle detection over pool acquisitions')
+extend('C13', 'Also decided: every _perm_fail quotes the reply of its own '
+       'group; the configured bounce queue is chosen by identity, not '
+       'truthiness; the embedded original is flatten() of the failed message '
+       'itself, written untransformed.', 'value provenance')
+extend('C14', 'Also decided: TLS shutdown (SSLSocket.unwrap) counts as a '
+       'blocking primitive, from SmtpEdge.handle as well; the data timeout '
+       'falls back to the command timeout (None-abstract evaluation of the '
+       'constructor expression).', 'abstract evaluation over {None, set}')
+extend('C15', 'Also decided: no mutable constructor default is kept; the '
+       'disk scan isolates per-id failures; one id space per backend (key '
+       'prefix algebra over write / load / per-message operations).',
+       'affix (prefix) tag inference')
+extend('C16', 'Also decided: header presence is tested case-insensitively '
+       'and no policy deletes a header; no stale positional update in the '
+       'policy chain.')
+extend('C18', 'Also decided: inet_ntop only on a packed address cut by a '
+       'struct format (else ValueError escapes); only the strict textual '
+       'address parser is used.')
+extend('C19', 'Also decided: at most one client is added per call of '
+       '_check_idle / _remove_client; no silent Timeout encloses a protocol '
+       'exchange; the failure reported for an attempt is built from that '
+       'attempt.')
